@@ -36,6 +36,25 @@ def install():
     from cylc.flow.scheduler import Scheduler
     from cylc.flow.xtrigger_mgr import XtriggerManager
 
+    # LOG: respawn refusals ("Not respawning P/N - task was removed") are
+    # only visible in the scheduler log
+    import logging
+    import re as _re
+    from cylc.flow import LOG as _LOG
+
+    class _Obs(logging.Handler):
+        REC = _re.compile(r'^Not respawning (\S+) - task was removed')
+
+        def emit(self, record):
+            try:
+                m = self.REC.match(str(record.msg))
+                if m:
+                    _emit('RESPAWN_REFUSED', id=m.group(1))
+            except Exception:
+                pass
+
+    _LOG.addHandler(_Obs(level=logging.INFO))
+
     # STATE ---------------------------------------------------------------
     orig_reset = TaskProxy.state_reset
 
